@@ -363,7 +363,8 @@ def run(ctx, repo, tier):
                 trunc.append(st_)
         first_sort = None
         for st_ in gd.node.body:
-            if isinstance(st_, ast.Assign) and len(st_.targets) == 1 and src(st_.targets[0]) == vname and not elementwise_of(st_.value, vname):
+            if isinstance(st_, ast.Assign) and len(st_.targets) == 1 and src(st_.targets[0]) == vname and not elementwise_of(st_.value, vname) and \
+                    st_ not in trunc:
                 first_sort = st_
                 break
         early = [t_ for t_ in trunc if first_sort is None or t_.lineno < first_sort.lineno]
